@@ -247,7 +247,9 @@ def stubCase (t : Idl) : P String := do
       if ty != str "*varlink.Error" then return s!"DIFF C08 generic-error-other-type{cls} {feats}"
     | _, _ => return s!"DIFF C08 client-result-kind-differs{cls} {feats}"
   -- the model-level round trips the theorems state, at run time
-  if scenario == "reply" then
+  -- (when a continues reply is issued on a call without more it is refused and not written, so results
+  --  and issued replies are no longer in one-to-one correspondence; the frame comparison above decides)
+  if scenario == "reply" && (fl.more || replies.all (fun r => !r.1)) then
     for (er, r) in expResults.zip replies do
       match er with
       | .values vs cont =>
